@@ -319,19 +319,83 @@ def r3_store_reg(rule, root=None):
         rule.bad("mem_offset", "mem_offset must be the register budget N", A.where(fn))
 
 
+def _w32(t):
+    t = _word(str(t))
+    if re.fullmatch(r"0(u32)?|0x0+(u32)?", t):
+        return "0"
+    if re.fullmatch(r"u32::MAX|0[xX][fF]{8}(u32)?|0[xX][fF]{4}_[fF]{4}(u32)?|4294967295(u32)?|!0(u32)?", t):
+        return "u32::MAX"
+    return t
+
+
+def _marker_words(fn):
+    """words appended to `data` before and after the per-op loop at the top level of Bytecode::new, plus
+    whether anything else touches `data` after the loop"""
+    stmts = fn["body"]["stmts"]
+    loop_i = [i for i, s_ in enumerate(stmts) if A.strip(A.stmt_expr(s_) or {}).get("k") == "For" and str(A.ftxt(A.strip(A.stmt_expr(s_))["iter"])) == "t.iter_asm()"]
+    if len(loop_i) != 1:
+        return None, None, True
+    li = loop_i[0]
+
+    def words_of(arr):
+        arr = A.strip(arr)
+        arr = A.strip(arr["e"]) if arr.get("k") == "Ref" else arr
+        if arr.get("k") == "Array":
+            return [_w32(A.ftxt(x)) for x in arr["elems"]]
+        if arr.get("k") == "Macro" and arr.get("name") == "vec":
+            txt_ = A.tokens_str(arr["tokens"]).replace(" ", "")
+            return [_w32(x) for x in txt_.split(",") if x] if ";" not in txt_ else ["?" + txt_]
+        return ["?" + str(A.ftxt(arr))]
+
+    pre, post, stray = [], [], False
+    for i, s_ in enumerate(stmts):
+        if i == li:
+            continue
+        tgt = pre if i < li else post
+        if s_.get("k") == "Let" and A.binding_name(s_["pat"]) == "data" and s_.get("init") is not None:
+            init = A.strip(s_["init"])
+            it = str(A.ftxt(init))
+            if init.get("k") == "Macro" and init.get("name") == "vec":
+                tgt += words_of(init)
+            elif re.fullmatch(r"(Vec|Vec::<u32>)::(new\(\)|with_capacity\(.*\))|vec!\(\)", it):
+                pass
+            else:
+                tgt.append("?" + it)
+            continue
+        e = A.strip(A.stmt_expr(s_) or {})
+        if e.get("k") == "MethodCall" and A.ident(A.strip(e["recv"])) == "data":
+            if e["method"] == "push" and len(e["args"]) == 1:
+                tgt.append(_w32(A.ftxt(e["args"][0])))
+                continue
+            if e["method"] in ("extend", "extend_from_slice") and len(e["args"]) == 1:
+                tgt += words_of(e["args"][0])
+                continue
+            if e["method"] in ("reserve", "len", "capacity", "shrink_to_fit"):
+                continue
+            if i > li:
+                stray = True
+            continue
+        if i > li and s_.get("k") != "Macro" and re.search(r"(?<![\w.])data\.(?!len\(\))\w+\(", str(A.ftxt(s_))) and "data," not in A.unparse(s_) and not str(A.ftxt(s_)).startswith(("debug_assert", "assert")):
+            stray = True
+    return pre, post, stray
+
+
 def r4_framing(rule, root=None):
     fn = new_fn(root)
     t = A.ftxt(fn["body"])
-    checks = [
-        ("start marker", "letmutdata=vec!(u32::MAX,0u32);"),
-        ("tape walked in evaluation order", "foropint.iter_asm()"),
-        ("end marker", "data.extend([u32::MAX,u32::MAX]);"),
-    ]
-    for what, frag in checks:
-        if frag in t:
-            rule.ok("framing: %s" % what, file=BC, line=fn["ln"])
-        else:
-            rule.bad("framing|%s" % what, "Bytecode::new no longer contains `%s` (%s)" % (frag, what), A.where(fn))
+    if "foropint.iter_asm()" in t:
+        rule.ok("framing: tape walked in evaluation order", file=BC, line=fn["ln"])
+    else:
+        rule.bad("framing|tape walked in evaluation order", "Bytecode::new no longer contains `for op in t.iter_asm()` (tape walked in evaluation order)", A.where(fn))
+    pre, post, stray = _marker_words(fn)
+    if pre == ["u32::MAX", "0"]:
+        rule.ok("framing: start marker", file=BC, line=fn["ln"])
+    else:
+        rule.bad("framing|start marker", "Bytecode::new must start the stream with the words [u32::MAX, 0] (found %s)" % pre, A.where(fn))
+    if post == ["u32::MAX", "u32::MAX"]:
+        rule.ok("framing: end marker", file=BC, line=fn["ln"])
+    else:
+        rule.bad("framing|end marker", "Bytecode::new must end the stream with the words [u32::MAX, u32::MAX] (found %s)" % post, A.where(fn))
     # per op: register bytes default to 0xFF; exactly two words are appended, the little-endian instruction
     # word and then the immediate (however they are appended)
     loops = [l for l in A.find(fn["body"], "For") if str(A.ftxt(l["iter"])) == "t.iter_asm()"]
@@ -369,11 +433,7 @@ def r4_framing(rule, root=None):
     else:
         rule.bad("framing|second word is the immediate", "each op must append the immediate (or its filler) second (appends: %s)" % appended, A.where(fn))
     # the end marker is the last mutation of data
-    stmts = fn["body"]["stmts"]
-    idx_ext = [i for i, s in enumerate(stmts) if "data.extend" in A.ftxt(s)]
-    later = [s for s in stmts[idx_ext[-1] + 1:] if "data." in A.ftxt(s) and "data," not in A.unparse(s)] if idx_ext else []
-    loops = [i for i, s in enumerate(stmts) if A.strip(A.stmt_expr(s) or {}).get("k") == "For"]
-    if idx_ext and loops and idx_ext[-1] > loops[-1] and not later:
+    if post and not stray:
         rule.ok("end marker follows the loop and nothing mutates data afterwards")
     else:
         rule.bad("framing|order", "the end marker must be appended after the loop, as the last mutation of data", A.where(fn))
@@ -396,6 +456,35 @@ def r4_framing(rule, root=None):
         rule.ok("iter_ops numbering equals the emitted opcode byte (no explicit discriminants)", file=BC, line=io["ln"])
     if len(e["variants"]) > 255:
         rule.bad("enum|count", "more than 255 opcodes: 0xFF is reserved", A.where(BC, e))
+
+
+def _repack_all(rt):
+    """`V.visit_regs_mut(|r| *r = map[r])` for every V of `self.tape` (a for loop over `&mut self.tape` /
+    `self.tape.iter_mut()`, or `.iter_mut().for_each(|V| ..)`), with nothing that skips elements"""
+    calls = [c for c in A.find(rt["body"], "MethodCall") if c["method"] == "visit_regs_mut" and len(c["args"]) == 1]
+    if len(calls) != 1:
+        return False
+    c = calls[0]
+    cl = A.strip(c["args"][0])
+    if cl.get("k") != "Closure" or len(cl.get("inputs") or []) != 1:
+        return False
+    r = A.binding_name(cl["inputs"][0])
+    if str(A.ftxt(A.strip(cl["body"]))).strip("{};") not in ("*%s=map[%s]" % (r, r), "(*%s=map[%s])" % (r, r), "*%s=map[&*%s]" % (r, r)):
+        return False
+    v = A.ident(A.strip(c["recv"]))
+    if not v:
+        return False
+    for l in A.find(rt["body"], "For"):
+        if A.binding_name(l["pat"]) == v and str(A.ftxt(l["iter"])) in ("&mutself.tape", "self.tape.iter_mut()", "(&mutself.tape)") and any(n is c for n in A.walk(l["body"])):
+            bad = [n for n in A.walk(l["body"]) if isinstance(n, dict) and n.get("k") in ("Break", "Continue", "Return", "If", "Match")]
+            return not bad
+    for fe in A.find(rt["body"], "MethodCall"):
+        if fe["method"] == "for_each" and len(fe["args"]) == 1 and str(A.ftxt(fe["recv"])) == "self.tape.iter_mut()":
+            f = A.strip(fe["args"][0])
+            if f.get("k") == "Closure" and len(f.get("inputs") or []) == 1 and A.binding_name(f["inputs"][0]) == v and any(n is c for n in A.walk(f["body"])):
+                bad = [n for n in A.walk(f["body"]) if isinstance(n, dict) and n.get("k") in ("Return", "If", "Match")]
+                return not bad
+    return False
 
 
 def r5_visit_regs(rule, root=None):
@@ -434,7 +523,7 @@ def r5_visit_regs(rule, root=None):
                 rule.bad("%s|%s|missing" % (fname, v), "RegOp::%s has no arm for %s" % (fname, v), A.where(fn, ms[0]))
     rt = A.find_fn("fidget-core/src/compiler/reg_tape.rs", "repack", self_ty="RegTape", root=root)
     t = A.ftxt(rt["body"])
-    if "op.visit_regs_mut(|reg|*reg=map[reg])" in t and "foropin&mutself.tape" in t:
+    if _repack_all(rt):
         rule.ok("repack rewrites every register of every op through the map")
     else:
         rule.bad("repack", "RegTape::repack must map every register of every op", A.where(rt))
